@@ -69,6 +69,12 @@ def hostkey_case():
             blob = _relabel(key.sign_ssh_data(t.H, negotiated), lab)
             sigalg = lab
         t.host_key_type = negotiated
+        if ctx.flag("negotiated-in-its-certificate-form"):
+            # e.g. rsa-sha2-512-cert-v01@openssh.com: the signature must still be made with the base algorithm.
+            # (Loading a certificate blob is the key classes' business; here the loader hands back the certified key.)
+            t.host_key_type = negotiated + "-cert-v01@openssh.com"
+            t._key_info = dict(t._key_info)
+            t._key_info[t.host_key_type] = lambda msg: key
         try:
             t._verify_key(key.asbytes(), blob)
             accepted = True
@@ -82,7 +88,7 @@ def hostkey_case():
     return Case("client-host-key-signature", fn,
                 ["client-accepts-the-exchange-exactly-for-a-signature-made-with-the-negotiated-algorithm",
                  "mismatched-ecdsa/ed25519-names-are-refused"],
-                {"negotiated x used": "all 9 RSA pairs, relabelled or not; ECDSA key with 4 labels"})
+                {"negotiated x used": "all 9 RSA pairs, relabelled or not; ECDSA key with 4 labels; each negotiated name in plain and certificate form"})
 
 
 def pubkey_auth_case():
